@@ -70,7 +70,7 @@ func vParseRoute(s string) (*Route, error) {
 		if !p.at('/') {
 			return nil, vErrSyntax
 		}
-		seg := &Segment{Pos: p.position(), Slash: "/"}
+		seg := &Segment{Pos: p.position()}
 		p.pos++
 		if p.at('?') {
 			seg.Optional = true
@@ -185,7 +185,7 @@ func vSameAST(s string) string {
 			if (x.Ident == nil) != (y.Ident == nil) || (x.BindIdent == nil) != (y.BindIdent == nil) || (x.BindParameters == nil) != (y.BindParameters == nil) {
 				return "element kind differs for " + s
 			}
-			if x.Pos.Offset != y.Pos.Offset {
+			if x.Pos.Offset != y.Pos.Offset || x.EndPos.Offset != y.EndPos.Offset || x.Pos.Column != y.Pos.Column || x.Pos.Line != y.Pos.Line {
 				return "element offset differs for " + s
 			}
 			if x.Ident != nil && *x.Ident != *y.Ident {
